@@ -505,7 +505,7 @@ func checkDiffFormat(format, out string, cd diff.ConnectivityDiff) string {
 }
 
 func genFmtCase(r *Rng, id int, tier string) *Sx {
-	cfg := &genCfg{anp: r.P(30), banp: true, pods: true, ingress: r.P(35), icNs: true, icName: r.P(25), twinPct: 25, podPortsVary: true, namedOnIPPct: 0, maxNP: 4, maxWl: 5}
+	cfg := &genCfg{anp: r.P(30), banp: true, pods: true, ingress: r.P(35), icNs: true, icName: r.P(25), twinPct: 25, complementPct: 8, podPortsVary: true, namedOnIPPct: 0, maxNP: 4, maxWl: 5}
 	exposure := r.P(40)
 	if exposure {
 		cfg.anp, cfg.banp = false, false
